@@ -119,14 +119,14 @@ class Resource(PropertyTreeNode):
         Args:
             scenario_idx: The scenario index
         """
-        # Recursively descend into all child resources
-        for child in self.children:
-            if hasattr(child, "finishScheduling"):
-                child.finishScheduling(scenario_idx)
-
         scenario = self.data[scenario_idx]
         if scenario:
+            # Descends into the child resources itself
             scenario.finishScheduling()
+        else:
+            for child in self.children:
+                if hasattr(child, "finishScheduling"):
+                    child.finishScheduling(scenario_idx)
 
     def bookedEffort(self, scenario_idx: int) -> float:
         """
